@@ -598,6 +598,55 @@ class StructuralFam:
                 "exhaustive": True, "spec_invariants": ["InsertDeleteIdentity", "ClearUndoIdentity"], "spec_properties": ["MovePermutes", "InsertLosesNothing"], "no_verdict": r.get("no_verdict", 0)}
 
 
+class RecalcFam:
+    PROPS = ["C05", "C07", "C31"]
+    ASSUMPTIONS = ["workbook of Recalc.tla: column A1..A4 of Sheet1 and Sheet2!A1; cell contents from a menu of ~20 per cell: empty, numbers 0 / 2 / 3, =ref to any cell (cross-sheet included), =a+b, =SUM(Sheet1!A1:A4) (self-including when typed in the column), three lazy =IF(c>0,a,b) shapes incl. self-reference in one branch, =SEQUENCE(c) with the height read from another cell",
+                   "Val in Recalc.tla is the demanded value: recursive evaluation with the set of cells in progress (#CIRC! on re-entry, propagated to readers), SUM skipping empty cells, SEQUENCE(n) filling n cells downward or #SPILL! when user content is in the way, #CALC!-class error for n <= 0; no verdict where a spill height depends on its own spill",
+                   "behaviours: every history of 2 edits from the empty workbook (exhaustive, 8 281) and seeded random histories of 6 edits (quick 12 000, thorough 8 edits x 160 000) produced by TLC in simulation mode; after every edit every cell's value and spill membership (get_cell_array_structure) is compared",
+                   "C07: the final workbook of every behaviour is rebuilt from scratch in forward / reverse / rotated input order x {evaluate after each input, evaluation paused until the end, to_bytes/from_bytes after the first input}, evaluated twice; all variants must show what the history shows",
+                   "attribution: wrong value or membership of a spill anchor / spill cell C31, any other wrong value C05, differing variants C07"]
+
+    @staticmethod
+    def run(d, tier, seed):
+        import re as _re
+        res = {"violations": {p: [] for p in RecalcFam.PROPS}}
+        cfg = open(os.path.join(SPEC, "Recalc.cfg")).read()
+        out, st, dt = run_tlc("Recalc.tla", cfg, d, "recalc2", workers=8, timeout=900)
+        path = os.path.join(d, "beh.ndjson")
+        n1 = cases_from(out, path, tag="BEHAVIOUR")
+        # deeper histories: TLC simulation mode, seeded
+        depth, num = (6, 3000) if tier == "quick" else (8, 40000)
+        cfgp = os.path.join(d, "recalc_sim.cfg")
+        open(cfgp, "w").write(cfg.replace("MaxSteps = 2", f"MaxSteps = {depth}"))
+        rc, sout, dts = tlc("Recalc.tla", cfgp, os.path.join(d, "meta_sim"), workers=4, timeout=1500, extra=["-simulate", f"num={num}", "-depth", str(depth + 1), "-seed", str(seed)])
+        if "Error:" in sout or "is violated" in sout or "Exception" in sout:
+            raise ToolError("Recalc.tla simulation failed:\n" + sout[-3000:])
+        m = _re.search(r"The number of states generated: (\d+)", sout)
+        path2 = os.path.join(d, "behs.ndjson")
+        n2 = cases_from(sout, path2, tag="BEHAVIOUR")
+        if n1 == 0 or n2 == 0:
+            raise ToolError("Recalc.tla printed no behaviours")
+        with open(path, "a") as f:
+            f.write(open(path2).read())
+        os.remove(path2)
+        rr, dt2 = icverif(["recalc", "--in", path, "--out", os.path.join(d, "out"), "--n", 4], timeout=3400)
+        os.remove(path)
+        res["tlc"] = {"states": st["distinct"] + (int(m.group(1)) if m else 0), "transitions": st["generated"] + (int(m.group(1)) if m else 0), "seconds": round(dt + dts, 1),
+                      "exhaustive_behaviours": n1, "simulated_behaviours": n2}
+        res["run"] = rr
+        res["run"]["seconds"] = round(dt2, 1)
+        collect(res, "C05", os.path.join(d, "out", "mismatches.ndjson"))
+        return res
+
+    @staticmethod
+    def evidence_for(prop, res):
+        r = res["run"]
+        return {"states": res["tlc"]["states"], "transitions": res["tlc"]["transitions"], "traces_validated_against_impl": r["cases"],
+                "samples": r["samples"][:3] or [{"note": "no sample"}], "evaluations": r["checks"], "distinct_nontrivial": r["distinct_nontrivial"],
+                "rule": "every behaviour of Recalc.tla (exhaustive length 2 + simulated longer ones) replayed on UserModel; evaluations = cell comparisons after each edit plus whole-workbook comparisons of rebuilt variants; distinct_nontrivial = distinct (edited content kind, demanded value class) pairs that occurred with a verdict.",
+                "exhaustive": False, "spec_invariants": ["CircOnlyOnCycles", "SpillsExact"], "no_verdict": r.get("no_verdict", 0), "variants_rebuilt": r.get("variants_rebuilt", 0), "tlc": res["tlc"]}
+
+
 def replay_case(prop, path):
     with open(path) as f:
         payload = json.load(f)
@@ -619,6 +668,9 @@ def _wrap(cls, name):
 
 TABLE = {"C21": _wrap(Calendar, "calendar"), "C22": _wrap(Grid, "grid"), "C23": _wrap(Lang, "lang"), "C34": _wrap(F4, "f4"), "C19": _wrap(NumberInput, "numinput"), "C20": _wrap(NumberFormat, "numformat"), "C09": _wrap(Formula, "formula"), "C29": _wrap(ColAttrs, "colattrs"), "C30": _wrap(StylesFam, "styles"), "C11": _wrap(Tokens, "tokens"), "C08": _wrap(FiniteFam, "finite"), "C25": _wrap(XlsxFaultsFam, "xlsxfaults")}
 TABLE["C06"] = _wrap(ValueFam, "value")
+_rc = _wrap(RecalcFam, "recalc")
+for _p in RecalcFam.PROPS:
+    TABLE[_p] = _rc
 _st = _wrap(StructuralFam, "structural")
 for _p in StructuralFam.PROPS:
     TABLE[_p] = _st
